@@ -104,9 +104,12 @@ func XapToTar(f *os.File, w io.Writer) error {
 
 func removeSignature(cd []byte) []byte {
 	size := len(cd)
+	if size < 10 {
+		return cd
+	}
 	var tr xapTrailer
 	_ = binary.Read(bytes.NewReader(cd[size-10:size]), binary.LittleEndian, &tr)
-	if tr.Magic == trailerMagic {
+	if tr.Magic == trailerMagic && int(tr.TrailerSize)+10 <= size {
 		size -= int(tr.TrailerSize) + 10
 		return cd[:size]
 	}
